@@ -390,7 +390,7 @@ func (parameter *Parameter) Validate(ctx context.Context, opts ...ValidationOpti
 		}
 
 		if vo := getValidationOptions(ctx); vo.examplesValidationDisabled {
-			return nil
+			return validateExtensions(ctx, parameter.Extensions)
 		}
 		if example := parameter.Example; example != nil {
 			if err := validateExampleValue(ctx, example, schema.Value); err != nil {
